@@ -62,3 +62,8 @@ class DuplicateStorage:
             List of code blocks with this hash
         """
         return self._cache.find_duplicates_by_hash(hash_value)
+
+    def close(self) -> None:
+        """Close the underlying cache (removes the tempfile in tempfile mode)."""
+        self._cache.close()
+
